@@ -154,6 +154,28 @@ Definition P := mkParsed.
 '''
 
 
+def observe_custom(m, w, spec):
+    """the real _smiles with caller-supplied weights (the traversal is the same code for every weight function; the random
+    writer and sticky_smiles use it this way), text assembled as __format__ does"""
+    kw = kwargs_of(spec)
+    kw.pop('random', None)
+    strings, order = m._smiles(w.__getitem__, _return_order=True, **kw)
+    cx = None if '!x' in spec else m._format_cxsmiles(order)
+    joined = ''.join(strings)
+    return {'strings': list(strings), 'order': list(order), 'text': joined + (' ' + cx if cx else ''), 'w': dict(w), 'joined': joined,
+            'order2': list(order)}
+
+
+def weight_recipes(m, rng):
+    """weight functions other than the canonical ones: the atom numbers themselves (follows the numbering: for a ladder numbered
+    along its rails all rungs are open at once), a random injective assignment, a random assignment with many ties, all equal"""
+    nums = list(m._atoms)
+    perm = nums[:]
+    rng.shuffle(perm)
+    return [('numbers', {n: n for n in nums}), ('injective', dict(zip(nums, perm))),
+            ('ties', {n: rng.randrange(3) for n in nums}), ('constant', {n: 0 for n in nums})]
+
+
 def case_term(mname, wname, tname, spec, ob, full=False):
     return (f'{"wcase_full" if full else "wcase"} {mname} {wname} {cs(spec)} {tname} '
             f'{cs(",".join(ob["strings"]))} {lst(ob["order"], zraw)} {cs(ob["text"][len(ob["joined"]):])}')
@@ -376,6 +398,26 @@ def corr_writer(ck, mols):
                 ck.count('writer:mol-' + f)
             if len(set(ob['w'].values())) < len(ob['w']) and 'r' not in spec:
                 ck.count('writer:weight-ties')
+        # caller-supplied weights (non-random mode): special molecules and every 9th other one
+        if name in SPECIAL_SET or i % 9 == 0:
+            recipes = weight_recipes(m, rng)
+            for rname, w in (recipes if name in CLOSURE_HEAVY else rng.sample(recipes, 1)):
+                spec = rng.choice(['', 'a', 'h', 'A', 'm', '!s', 'ah'])
+                try:
+                    ob = observe_custom(m, w, spec)
+                except Exception as e:
+                    ck.unchecked('correspondence Writer: the real writer raised', f'{name} weights={rname} spec={spec!r}: {type(e).__name__}: {e}', [name])
+                    continue
+                wn = f'w{i}c{rname}'
+                md.append(f'Definition {wn} : list (Z * Z) := {zmap_term(w)}.')
+                local.append(case_term(f'm{i}', wn, f't{i}', spec, ob))
+                meta.append((name, m, f'weights={rname} {spec}', ob['text']))
+                WRITTEN_TEXTS.append(ob['text'])
+                n_cases += 1
+                ck.case(('writer-custom', name, rname, spec, ob['text']), nontrivial=len(m) > 2)
+                ck.count('writer:custom-weights=' + rname)
+                if '%' in ob['joined']:
+                    ck.count('writer:two-digit-closures')
         defs.extend(md)
         cases.extend(local)
         size += sum(len(x) for x in md) + sum(len(x) for x in local)
@@ -557,6 +599,7 @@ def corr_reader(ck, texts):
 
 
 SPECIAL_SET = set(SPECIAL)
+CLOSURE_HEAVY = {'C1C2C3C4C5C6C7C8C9C%10C%11C%12OC%12C%11C%10C9C8C7C6C5C4C3C2C1', 'C12C3C4C1C5C2C3C45', 'C1CC11CC11CC11CC1', 'C1CC12CCC21CC1'}
 
 # ---------------------------------------------------------------------------------------------------------
 # search: property-level oracles on the real code (no model involved)
@@ -660,8 +703,11 @@ def compare_along(m, m2, f, stereo=True):
     return diffs
 
 
-def written(m, spec, seed):
-    """(text of format(m, spec) / str(m), written atom order)"""
+def written(m, spec, seed, weights=None):
+    """(text of format(m, spec) / str(m), written atom order); with `weights`: _smiles called with these weights"""
+    if weights is not None:
+        ob = observe_custom(m, weights, spec)
+        return ob['text'], ob['order']
     if 'r' in spec:
         random.seed(seed)
         text = format(m, spec)
@@ -688,17 +734,21 @@ def known_class(m, spec):
     return keys
 
 
-def roundtrip(ck, name, m, spec, seed, rd_ref=None):
+def roundtrip(ck, name, m, spec, seed, rd_ref=None, weights=None):
     """write in one style, read back, compare along the written order. returns True when a violation was reported"""
     from chython import smiles
     try:
-        text, order = written(m, spec, seed)
+        text, order = written(m, spec, seed, weights)
     except Exception as e:
         ck.counterexample(f'write-raises:{name}:{spec}', f'format(mol, {spec!r}) raises {type(e).__name__}: {e}', {'molecule': name, 'spec': spec},
                           type(e).__name__, 'a SMILES string', 'write -> read round trip',
                           replay_py=f"from chython import smiles; m = smiles({name.split('#')[0]!r}); print(format(m, {spec!r}))")
         return True
     ck.case(('rt', name, spec, text), nontrivial=len(m) > 2)
+    if weights is not None:
+        ck.count('roundtrip:caller-supplied-weights')
+        if '%' in text:
+            ck.count('roundtrip:two-digit-closures')
     ck.count('roundtrip:spec=' + (''.join(sorted(set(spec) & set('aAmhr'))) + ('!s' if '!s' in spec else '') or 'canonical'))
     replay = (f"from chython import smiles\nt = {text!r}\nprint('written text', t)\nm2 = smiles(t)\n"
               f"print([(a.atomic_symbol, a.isotope, a.charge, a.is_radical, a.implicit_hydrogens, a.stereo) for _, a in m2.atoms()])\nprint(str(m2))")
@@ -800,6 +850,9 @@ def search_roundtrip(ck, mols, n_random, full=False):
         for k in range(n_random):
             spec = 'r' + rng.choice(['', 'a', 'h', 'A', 'm', 'ah'])
             found += roundtrip(ck, name, m, spec, f'{ck.seed}:{i}:{k}', ref)
+        if name in SPECIAL_SET or i % 4 == 0:
+            for rname, w in weight_recipes(m, rng):
+                found += roundtrip(ck, name, m, rng.choice(['', 'a', 'h', 'A', 'm', 'ah']), 0, ref, weights=w)
         for f_ in mol_features(m):
             ck.count('roundtrip:mol-' + f_)
     return found
